@@ -9,7 +9,7 @@ OTOP = 'old_ctx.states.state_stack[-1]'
 DEPTH = 'len(ctx.states.state_stack) == len(old_ctx.states.state_stack)'
 BELOW = 'ctx.states.state_stack[:-1] == old_ctx.states.state_stack[:-1]'
 SAME = 'ctx.states.state_stack == old_ctx.states.state_stack'
-GROW = 'len(ctx.states.state_stack) >= len(old_ctx.states.state_stack)'
+GROW = 'grown(ctx.states.state_stack, old_ctx.states.state_stack)'
 
 
 def register(reg):
